@@ -1274,6 +1274,15 @@ def call_ext(interp, dotted: str, args: List[V], kwargs: Dict[str, V], node, cc)
         dims = [list(dm) for dm in g.dims]
         dims[ax] = dims[ax] + [(interp.fresh_idx("p"), reps.p)]
         return Grid(dims, g.elem)
+    if d == "numpy.append" and len(args) == 2 and not kwargs:
+        # np.append(a, b) without an axis flattens both and concatenates: for one-dimensional a and a scalar / one-dimensional b
+        # it is np.concatenate((a, [b]))
+        a_, b_ = args
+        if isinstance(b_, Num):
+            b_ = interp.new_list([Elem(b_)])
+        ga = a_ if isinstance(a_, Grid) else to_grid(interp, a_)
+        if ga is not None and ga.ndim == 1:
+            return call_ext(interp, "numpy.concatenate", [TupleV([ga, b_])], {}, node, cc)
     if d == "numpy.concatenate" or d == "numpy.hstack":
         seq = args[0]
         parts = seq.items if isinstance(seq, TupleV) else (flat_elems(seq.items) if isinstance(seq, ListV) else None)
